@@ -268,6 +268,135 @@ fn check_threads(c: &TCase) -> Result<(), String> {
     }
 }
 
+// ---- a sibling whose own reader misbehaves ---------------------------------------------------
+/// Reader that knows which clone it is: every `clone()` draws a fresh id. The clone with the victim
+/// id fails its `at`-th I/O call (an I/O error, or a panic as a buggy user reader would).
+struct IdReader {
+    cur: Cursor<Arc<[u8]>>,
+    id: usize,
+    ids: Arc<std::sync::atomic::AtomicUsize>,
+    plan: Arc<(usize, usize, bool)>,
+    ops: Arc<std::sync::atomic::AtomicUsize>,
+}
+impl Clone for IdReader {
+    fn clone(&self) -> Self {
+        IdReader { cur: self.cur.clone(), id: self.ids.fetch_add(1, std::sync::atomic::Ordering::SeqCst), ids: self.ids.clone(), plan: self.plan.clone(), ops: self.ops.clone() }
+    }
+}
+impl IdReader {
+    fn tick(&self) -> std::io::Result<()> {
+        if self.id == self.plan.0 {
+            let k = self.ops.fetch_add(1, std::sync::atomic::Ordering::SeqCst);
+            if k == self.plan.1 {
+                if self.plan.2 {
+                    panic!("injected: the victim handle's own reader panics");
+                }
+                return Err(std::io::Error::new(std::io::ErrorKind::Other, "injected: the victim handle's own reader fails"));
+            }
+        }
+        Ok(())
+    }
+}
+impl Read for IdReader {
+    fn read(&mut self, b: &mut [u8]) -> std::io::Result<usize> {
+        self.tick()?;
+        self.cur.read(b)
+    }
+}
+impl std::io::Seek for IdReader {
+    fn seek(&mut self, p: std::io::SeekFrom) -> std::io::Result<u64> {
+        self.tick()?;
+        self.cur.seek(p)
+    }
+}
+
+#[derive(Clone, Debug, Serialize, Deserialize, Hash)]
+pub struct FCase {
+    program: Program,
+    order_a: u64,
+    order_b: u64,
+    by_name: bool,
+}
+
+static FAULT_RUNS: std::sync::atomic::AtomicU64 = std::sync::atomic::AtomicU64::new(0);
+
+/// Two clones A (victim) and B of a FRESH archive take turns opening and reading entries; A's own reader
+/// fails at its k-th I/O call, for EVERY k and both failure kinds. B must observe exactly what a handle
+/// used alone observes - before, at and after A's failure.
+fn check_faulty_sibling(c: &FCase, info: &mut Info) -> Result<(), String> {
+    let bytes: Arc<[u8]> = gen::run_program(&c.program, false).map_err(|e| format!("harness: {e}"))?.into();
+    let mut solo = zip::ZipArchive::new(Cursor::new(bytes.clone())).map_err(|e| format!("harness: {e}"))?;
+    let n = solo.len();
+    if n == 0 {
+        return Ok(());
+    }
+    let mut expected: Vec<(String, Vec<u8>, u64)> = Vec::new();
+    for i in 0..n {
+        let mut f = solo.by_index(i).map_err(|e| format!("harness: by_index: {e}"))?;
+        let mut v = Vec::new();
+        f.read_to_end(&mut v).map_err(|e| format!("harness: read: {e}"))?;
+        expected.push((f.name().to_string(), v, f.data_start()));
+    }
+    let unique: Vec<bool> = (0..n).map(|i| expected.iter().filter(|e| e.0 == expected[i].0).count() == 1).collect();
+    let shuffle = |seed: u64| {
+        let mut o: Vec<usize> = (0..n).collect();
+        let mut g = crate::util::Sm(seed);
+        for i in (1..n).rev() {
+            o.swap(i, (g.next() % (i as u64 + 1)) as usize);
+        }
+        o
+    };
+    let (oa, ob) = (shuffle(c.order_a), shuffle(c.order_b));
+    let read_one = |h: &mut zip::ZipArchive<IdReader>, i: usize| -> Result<(String, Vec<u8>, u64), String> {
+        let mut f = if c.by_name && unique[i] { h.by_name(&expected[i].0) } else { h.by_index(i) }.map_err(|e| format!("open failed: {e}"))?;
+        let mut v = Vec::new();
+        f.read_to_end(&mut v).map_err(|e| format!("read failed: {e}"))?;
+        Ok((f.name().to_string(), v, f.data_start()))
+    };
+    for panic_kind in [false, true] {
+        let mut at = 0usize;
+        loop {
+            FAULT_RUNS.fetch_add(1, std::sync::atomic::Ordering::Relaxed);
+            let ops = Arc::new(std::sync::atomic::AtomicUsize::new(0));
+            let rd = IdReader { cur: Cursor::new(bytes.clone()), id: 0, ids: Arc::new(std::sync::atomic::AtomicUsize::new(1)), plan: Arc::new((1, at, panic_kind)), ops: ops.clone() };
+            let base = zip::ZipArchive::new(rd).map_err(|e| format!("harness: {e}"))?;
+            let mut a = base.clone(); // id 1: the victim
+            let mut b = base.clone(); // id 2
+            let mut a_dead = false;
+            for step in 0..n {
+                if !a_dead {
+                    let r = catch(std::panic::AssertUnwindSafe(|| read_one(&mut a, oa[step])));
+                    match r {
+                        Ok(Ok(o)) => {
+                            if o != expected[oa[step]] && ops.load(std::sync::atomic::Ordering::SeqCst) <= at {
+                                return Err(format!("victim handle observes different data for entry {} before its reader has failed", oa[step]));
+                            }
+                        }
+                        Ok(Err(_)) => {}
+                        Err(_) => a_dead = true, // its reader panicked: the handle is abandoned, as a caller would
+                    }
+                }
+                let i = ob[step];
+                match catch(std::panic::AssertUnwindSafe(|| read_one(&mut b, i))) {
+                    Ok(Ok(o)) if o == expected[i] => {}
+                    Ok(Ok(o)) => return Err(format!("sibling handle observes {} bytes / data_start {} for entry {i} ({:?}), a handle used alone observes {} bytes / data_start {} (victim's reader {} at its I/O call {at})", o.1.len(), o.2, expected[i].0, expected[i].1.len(), expected[i].2, if panic_kind { "panicked" } else { "failed" })),
+                    Ok(Err(e)) => return Err(format!("sibling handle: entry {i} ({:?}): {e}, although only the OTHER clone's reader {} (at its I/O call {at}); the entry opens and reads fine on a handle used alone", expected[i].0, if panic_kind { "panicked" } else { "failed" })),
+                    Err(p) => return Err(format!("sibling handle PANICKED on entry {i} ({:?}): {p} - only the OTHER clone's reader {} (at its I/O call {at})", expected[i].0, if panic_kind { "panicked" } else { "failed" })),
+                }
+            }
+            if ops.load(std::sync::atomic::Ordering::SeqCst) <= at {
+                break; // the fault index lies beyond the victim's last I/O call: all indices done
+            }
+            at += 1;
+            if at > 4000 {
+                break;
+            }
+        }
+        info.nontrivial = true;
+    }
+    Ok(())
+}
+
 fn probe_send_sync(ctx: &mut Ctx) {
     let root = ctx.root.clone();
     let t0 = std::time::Instant::now();
@@ -295,7 +424,7 @@ fn probe_send_sync(ctx: &mut Ctx) {
 }
 
 pub fn run(ctx: &mut Ctx) {
-    ctx.rule("interleavings: 2-3 clones of one opened archive, each with a generated script over {open entry by index / by name, read k bytes, read to end, close}; EVERY interleaving of the scripts at call granularity on one thread (up to 1680 per script set) - each handle must observe exactly what the same script observes on an archive used alone. threads: a fresh archive, N in {2,4,8,16} clones on N OS threads released from a barrier, each opening (by index or by name) and reading all entries in a generated order (shared prefix + private shuffle) with generated yield points; every observation equals that of a handle used alone. send_sync_probe: a probe crate that only compiles if ZipArchive<R>: Send + Sync for R: Send + Sync. Non-trivial = the interleaving switches handles while an entry is open on another handle.");
+    ctx.rule("interleavings: 2-3 clones of one opened archive, each with a generated script over {open entry by index / by name, read k bytes, read to end, close}; EVERY interleaving of the scripts at call granularity on one thread (up to 1680 per script set) - each handle must observe exactly what the same script observes on an archive used alone. threads: a fresh archive, N in {2,4,8,16} clones on N OS threads released from a barrier, each opening (by index or by name) and reading all entries in a generated order (shared prefix + private shuffle) with generated yield points; every observation equals that of a handle used alone. faulty_sibling: two clones of a fresh archive take turns; the first clone's OWN reader fails (I/O error / panic) at its k-th I/O call for every k - the second clone must observe exactly what a handle used alone observes. send_sync_probe: a probe crate that only compiles if ZipArchive<R>: Send + Sync for R: Send + Sync. Non-trivial = the interleaving switches handles while an entry is open on another handle.");
     ctx.assume("OS thread schedules are sampled, not enumerated (the single-thread interleaving enumeration is the deciding part); Send/Sync is a compile-time fact observed by a build probe");
     if ctx.is_run() {
         probe_send_sync(ctx);
@@ -328,6 +457,20 @@ pub fn run(ctx: &mut Ctx) {
             }
         },
     );
+    let nf = ctx.q(150, 2000);
+    ctx.explore::<FCase>(
+        "faulty_sibling",
+        nf,
+        &|| (gen::program(5, 3000, false, false).prop_filter("has entries", |p| gen::entry_count(p) > 0).prop_map(gen::tame), any::<u64>(), any::<u64>(), any::<bool>()).prop_map(|(program, order_a, order_b, by_name)| FCase { program, order_a, order_b, by_name }).boxed(),
+        &|c: &FCase, info: &mut Info| {
+            info.label_if(c.by_name, "by_name");
+            match catch(|| check_faulty_sibling(c, info)) {
+                Ok(r) => Verdict::from_result(r),
+                Err(p) => Verdict::Fail(format!("PANIC: {p}")),
+            }
+        },
+    );
+    ctx.extra.insert("faulty_sibling_fault_runs".into(), serde_json::json!(FAULT_RUNS.load(std::sync::atomic::Ordering::Relaxed)));
     ctx.extra.insert("interleavings_executed".into(), serde_json::json!(INTERLEAVINGS.load(std::sync::atomic::Ordering::Relaxed)));
     let nt = ctx.q(600, 10000);
     let saved = ctx.threads;
